@@ -3,7 +3,9 @@
     TNSem).  The model (Qib.TN.TNModel) is a hand port of symbolic_network.py WITH the proposed
     repairs (merge: every deleted open axis once; is_consistent: exact leg count) and is tied
     to /repo by the exact correspondence run of checks/C08.py on every run. *)
-From Qib Require Import TN.TNSem TN.TNConsistentConv Base.Inst.
+From Qib Require Import TN.TNSem TN.TNConsistentConv TN.TNGenBase Base.Inst.
+From Run Require Import GenTN.
+Local Open Scope Z_scope.
 
 (** 1. the invariant implies the library's own check *)
 Theorem C08_invariant_implies_is_consistent : forall n, WF n -> is_consistent n = true.
@@ -192,6 +194,164 @@ Print Assumptions C08_transpose_permutes_value.
    The value semantics of merge is checked on every merge of the correspondence run against an
    independent numpy reference (checks/C08.py: ref_merge_value) and, exactly, against this
    model's defining_sum of the merged network. *)
+
+
+(* ================================================================== the source, regenerated *)
+(** [Run.GenTN] is regenerated on every run by gen/tn.py from
+    /repo/src/qib/tensor_network/symbolic_network.py (fail-closed ast translation of the closed-form
+    parts: merge's fresh-id arithmetic, join validation, del_axes, kept-axes selection; the
+    preconditions of rename_tensor / rename_bond / SymbolicBond / transpose; every `return False`
+    condition of is_consistent, its loop skeleton being pinned).  The theorems below are about
+    these regenerated definitions: what they are FOR (freshness) and that they are what the hand
+    model Qib.TN.TNModel uses - so a change of one of these expressions in /repo breaks a theorem
+    here (and the oracles of checks/C08.py then look for a failing input). *)
+Theorem C08_source_fresh_ids :
+  (forall T To y, (gen_merge_next_tid T To <= y)%Z -> ~ In y (dkeys T) /\ ~ In y (dkeys To)) /\
+  (forall B Bo y, (gen_merge_next_bid B Bo <= y)%Z -> ~ In y (dkeys B) /\ ~ In y (dkeys Bo)) /\
+  (forall next, (next < gen_merge_tid_step next)%Z /\ (next < gen_merge_bid_step next)%Z).
+Proof.
+  split; [|split].
+  - intros T To y H. unfold gen_merge_next_tid in H. repeat rewrite zmaxd_0 in H. split; intros Hin.
+    + pose proof (zmax0_ge (dkeys T ++ dkeys To) y (in_or_app _ _ _ (or_introl Hin))).
+      pose proof (zmax0_ge (dkeys T) y Hin). lia.
+    + pose proof (zmax0_ge (dkeys T ++ dkeys To) y (in_or_app _ _ _ (or_intror Hin))).
+      pose proof (zmax0_ge (dkeys To) y Hin). lia.
+  - intros B Bo y H. unfold gen_merge_next_bid in H. repeat rewrite zmaxd_0 in H. split; intros Hin.
+    + pose proof (zmax0_ge (dkeys B ++ dkeys Bo) y (in_or_app _ _ _ (or_introl Hin))).
+      pose proof (zmax0_ge (dkeys B) y Hin). lia.
+    + pose proof (zmax0_ge (dkeys B ++ dkeys Bo) y (in_or_app _ _ _ (or_intror Hin))).
+      pose proof (zmax0_ge (dkeys Bo) y Hin). lia.
+  - intros next. unfold gen_merge_tid_step, gen_merge_bid_step. lia.
+Qed.
+Print Assumptions C08_source_fresh_ids.
+
+Theorem C08_source_merge_is_model :
+  (forall n o, gen_merge_next_tid (tensors n) (tensors o) = zmax0 (dkeys (tensors n) ++ dkeys (tensors o)) + 1) /\
+  (forall n o, gen_merge_next_bid (bonds n) (bonds o) = zmax0 (dkeys (bonds n) ++ dkeys (bonds o)) + 1) /\
+  gen_merge_tmp_init = VT /\
+  (forall next, gen_merge_tid_step next = next + 1 /\ gen_merge_bid_step next = next + 1) /\
+  (forall tid, gen_merge_is_virtual tid = Z.eqb tid VT) /\
+  (forall (j : nat * nat) n1 n2, gen_merge_join_refused (Z.of_nat (fst j)) (Z.of_nat (snd j)) n1 n2
+                                 = negb (Nat.ltb (fst j) n1 && Nat.ltb (snd j) n2)) /\
+  (forall j0 j1 n1 n2, (j0 < 0 \/ j1 < 0) -> gen_merge_join_refused j0 j1 n1 n2 = true) /\
+  (forall ndim amap, gen_merge_del_axes ndim amap = filter (fun i => negb (nmem i amap)) (seq 0 ndim)) /\
+  (forall tids, gen_merge_bond_still_ok tids = negb (Nat.ltb (length tids) 2)) /\
+  (forall l amap, gen_merge_keep_shape l amap = map (fun i => nth i l O) amap) /\
+  (forall l amap, gen_merge_keep_bids l amap = map (fun i => nth i l 0) amap).
+Proof.
+  refine (conj _ (conj _ (conj _ (conj _ (conj _ (conj _ (conj _ (conj _ (conj _ (conj _ _)))))))))).
+  - intros. unfold gen_merge_next_tid. repeat rewrite zmaxd_0. lia.
+  - intros. unfold gen_merge_next_bid. repeat rewrite zmaxd_0. lia.
+  - reflexivity.
+  - intros next. unfold gen_merge_tid_step, gen_merge_bid_step. lia.
+  - intros tid. unfold gen_merge_is_virtual, VT. cmp_bool.
+  - intros j n1 n2. unfold gen_merge_join_refused. cmp_bool.
+  - intros j0 j1 n1 n2 H. unfold gen_merge_join_refused. cmp_bool.
+  - intros. reflexivity.
+  - intros tids. unfold gen_merge_bond_still_ok. cmp_bool.
+  - intros. reflexivity.
+  - intros. reflexivity.
+Qed.
+Print Assumptions C08_source_merge_is_model.
+
+Theorem C08_source_rename_transpose_bond_are_model :
+  (forall n a c, gen_rename_tensor_refused a c (tensors n) = true -> rename_tensor n a c = None) /\
+  (forall n a c, WF n -> gen_rename_tensor_refused a c (tensors n) = false -> exists n', rename_tensor n a c = Some n') /\
+  (forall n a c, gen_rename_bond_refused a c (bonds n) = true -> rename_bond n a c = None) /\
+  (forall n a c, WF n -> gen_rename_bond_refused a c (bonds n) = false -> exists n', rename_bond n a c = Some n') /\
+  (forall n axes, gen_transpose_refused axes = true -> transpose n axes = None) /\
+  (forall n axes t n', dget VT (tensors n) = Some t -> transpose n axes = Some n' ->
+     dget VT (tensors n') = Some (mkT (t_id t) (gen_transpose_shape (t_shape t) axes) (gen_transpose_bids (t_bids t) axes) (t_ref t))) /\
+  (forall tids, gen_bond_refused tids = negb (Nat.leb 2 (length tids))) /\
+  (forall tids, gen_bond_tids tids = zsort tids).
+Proof.
+  refine (conj _ (conj _ (conj _ (conj _ (conj _ (conj _ (conj _ _))))))).
+  - intros n a c H. unfold gen_rename_tensor_refused in H. unfold rename_tensor, dhas in *.
+    destruct (dget a (tensors n)); [|reflexivity]. destruct (dget c (tensors n)); [reflexivity | discriminate].
+  - intros n a c [W _] H. unfold gen_rename_tensor_refused in H. unfold rename_tensor.
+    destruct (dget a (tensors n)) as [t|] eqn:Ea; [|unfold dhas in H; rewrite Ea in H; discriminate].
+    destruct (dhas c (tensors n)) eqn:Ec; [unfold dhas in H; rewrite Ea in H; discriminate|].
+    destruct (wf_T n W a t (dget_In _ _ _ Ea)) as [-> _]. rewrite Z.eqb_refl. cbn [negb].
+    rewrite retid_step_upd, ofold_upd; [eexists; reflexivity | apply (wf_ndB n W) |].
+    intros k Hk. eapply wf_bids_exist; eauto. apply dget_In. exact Ea.
+  - intros n a c H. unfold gen_rename_bond_refused in H. unfold rename_bond, dhas in *.
+    destruct (dget a (bonds n)); [|reflexivity]. destruct (dget c (bonds n)); [reflexivity | discriminate].
+  - intros n a c [W _] H. unfold gen_rename_bond_refused in H. unfold rename_bond.
+    destruct (dget a (bonds n)) as [b|] eqn:Ea; [|unfold dhas in H; rewrite Ea in H; discriminate].
+    destruct (dhas c (bonds n)) eqn:Ec; [unfold dhas in H; rewrite Ea in H; discriminate|].
+    destruct (wf_B n W a b (dget_In _ _ _ Ea)) as [-> _]. rewrite Z.eqb_refl. cbn [negb].
+    rewrite rebid_step_upd, ofold_upd; [eexists; reflexivity | apply (wf_ndT n W) |].
+    intros k Hk. eapply wf_tids_exist; eauto. apply dget_In. exact Ea.
+  - intros n axes H. unfold gen_transpose_refused in H. unfold transpose.
+    destruct (dget VT (tensors n)); [|reflexivity]. rewrite H. reflexivity.
+  - intros n axes t n' Ht H. unfold transpose in H. rewrite Ht in H.
+    destruct (negb (nnodupb axes)); [discriminate|].
+    destruct (negb (forallb _ axes)); [discriminate|]. injection H as <-. cbn [tensors].
+    rewrite dget_dset, Z.eqb_refl. reflexivity.
+  - intros tids. unfold gen_bond_refused. cmp_bool.
+  - intros tids. reflexivity.
+Qed.
+Print Assumptions C08_source_rename_transpose_bond_are_model.
+
+
+(** is_consistent, read off the source: the loop skeleton is pinned by the translator, every
+    `... return False` condition is the regenerated gen_ic_fail_k *)
+Definition source_is_consistent (n : net) : bool :=
+  negb (gen_ic_fail_0 (tensors n))
+  && forallb (fun kt : Z * tensor =>
+        negb (gen_ic_fail_1 (fst kt) (snd kt))
+        && forallb (fun bid => negb (gen_ic_fail_2 bid (bonds n))
+                               && match dget bid (bonds n) with
+                                  | Some b => negb (gen_ic_fail_3 (snd kt) b bid)
+                                  | None => false
+                                  end) (t_bids (snd kt)))
+       (tensors n)
+  && forallb (fun kb : Z * bond =>
+        let b := snd kb in
+        negb (gen_ic_fail_4 (fst kb) b) && negb (gen_ic_fail_5 b)
+        && match get_bond_axes n (b_id b) with
+           | None => false
+           | Some axs =>
+               let legs := combine (b_tids b) axs in
+               negb (gen_ic_fail_6 (b_tids b) axs)
+               && forallb (fun p : Z * nat =>
+                     negb (gen_ic_fail_7 (fst p) (tensors n))
+                     && match dget (fst p) (tensors n) with
+                        | Some t => negb (gen_ic_fail_8 t (snd p)) && negb (gen_ic_fail_9 t (snd p) b)
+                        | None => false
+                        end) legs
+               && (let dims := map (fun p : Z * nat => match dget (fst p) (tensors n) with
+                                                       | Some t => nth (snd p) (t_shape t) O
+                                                       | None => O
+                                                       end) legs in
+                   match dims with [] => true | _ => negb (gen_ic_fail_10 dims) end)
+           end)
+       (bonds n).
+
+Theorem C08_source_is_consistent_is_model : forall n, source_is_consistent n = is_consistent n.
+Proof.
+  intros n. unfold source_is_consistent, is_consistent.
+  f_equal; [f_equal|].
+  - unfold gen_ic_fail_0. rewrite ?negb_involutive. reflexivity.
+  - apply forallb_ext_in. intros [k t] _. cbn [fst snd]. unfold tensor_ok.
+    f_equal.
+    + unfold gen_ic_fail_1. rewrite ?negb_involutive. reflexivity.
+    + apply forallb_ext_in. intros bid _. unfold gen_ic_fail_2, gen_ic_fail_3, dhas.
+      destruct (dget bid (bonds n)); cbn; rewrite ?negb_involutive; reflexivity.
+  - apply forallb_ext_in. intros [k b] _. cbn [fst snd]. cbv zeta. unfold bond_ok.
+    f_equal; [f_equal|].
+    + unfold gen_ic_fail_4. rewrite ?negb_involutive. reflexivity.
+    + unfold gen_ic_fail_5. cmp_bool.
+    + destruct (get_bond_axes n (b_id b)) as [axs|]; [|reflexivity].
+      f_equal; [f_equal|].
+      * unfold gen_ic_fail_6, pairs_repeat. rewrite ?negb_involutive. reflexivity.
+      * apply forallb_ext_in. intros [tid ax] _. cbn [fst snd]. unfold gen_ic_fail_7, gen_ic_fail_8, gen_ic_fail_9, dhas.
+        destruct (dget tid (tensors n)) as [t|]; [|reflexivity]. cbn [negb andb]. rewrite ?negb_involutive.
+        f_equal. cmp_bool.
+      * set (dims := map _ (combine (b_tids b) axs)). unfold gen_ic_fail_10. rewrite ?negb_involutive.
+        rewrite all_eq_nat_alt. destruct dims; reflexivity.
+Qed.
+Print Assumptions C08_source_is_consistent_is_model.
 
 (** the decidable form of the invariant used by the correspondence run *)
 Theorem C08_wf_b_sound : forall n, wf_b n = true -> WF n.
